@@ -3,6 +3,7 @@ import Pcore.Model.SliceHeap
 import Pcore.Generated.SliceIdioms
 import Pcore.Model.Caches
 import Pcore.Generated.CacheFacts
+import Driver.ImmutRes
 /-!
 Driver op for C08:  `hist <step>*` (syntax in harness/c08/c08.go).  The history is run on the IMPLEMENTATION-LAYER
 model (`runHeap`) with the idiom table regenerated from the Go source and Go 1.23's growth policy; the line printed
@@ -204,6 +205,7 @@ def exec : List Sexp → String
       showState st ++ " | shape " ++ (if ops.any usesAt then "n/a" else showShape st) ++
         " | caches " ++ (if cachesOK cst then "ok" else "stale")
     | none => "bad-op"
+  | .atom "res" :: args => C08Res.exec args          -- the resolving operations (Driver/ImmutRes.lean)
   | _ => "bad-op"
 
 end C08
